@@ -72,7 +72,8 @@ def gen_case(rng, tier, idx):
             nd["outcome"] = "pass"
     obs = []
     for _ in range(rng.choice([0, 1, 2])):
-        obs.append({"on": rng.choice(["all", "rule", "datasource", "parser", "combiner"]), "raises": True})
+        obs.append({"on": rng.choice(["all", "rule", "datasource", "parser", "combiner"]), "raises": True,
+                    "shape": rng.choice(["function", "partial", "instance"])})
     return {"graph": g, "entry": {"form": rng.choice(["all", "all", "incremental_shared"])}, "observers": obs,
             "multi_seed": rng.getrandbits(32), "enumerate": True, "host": rng.random() < 0.4}
 
